@@ -22,7 +22,8 @@ func init() {
 		ID: "C18",
 		Rule: "statistical conformance monitor: for every parameter set of Full / Uniform / Normal / HeUniform / HeNormal / XavierUniform / XavierNormal / RandU / RandN (nil configs, asymmetric bounds, sigma != 1, odd and even fan sums, fans 1..101) the generator is called thousands of times over shapes of rank 0..4 with odd and even element counts, ALTERNATING with a 'disturber' generator of wildly different parameters, until N >= 40000 (quick) / 400000 (thorough) samples are collected; gonum's global source is seeded from (VERIF_SEED, case) so a run is reproducible. " +
 			"Hard checks on every call: exact shape, tracked (hook; a back-propagation probe on a sample), Full constant, support [lower, upper) / +-sqrt(6/fan). Statistical checks with thresholds fixed in advance (each at >= 6.5 standard errors or Kolmogorov 3.5/sqrt(N), i.e. < 1e-10 per statistic): mean, variance, Kolmogorov distance to the configured CDF - on all samples AND separately on the samples at flat position 0 and at the last position of each tensor; lag-1 autocorrelation of the call-ordered stream; correlation between positions 0 and 1; freshness: consecutive tensors of one generator share (almost) no value at equal positions. " +
-			"Non-trivial: every parameter set; distinct = (generator, parameter set). Later additions: every config struct overwritten right after construction; distinct values inside every drawn tensor, rank-4/5 shapes; large tensors (up to 131 072 elements, several layouts): distinct values, no block repeated at n/2, n/4, n/8, n/16 or one row; consecutive Init results of one Full object are independent tensors.",
+			"Non-trivial: every parameter set; distinct = (generator, parameter set). Later additions: every config struct overwritten right after construction; distinct values inside every drawn tensor, rank-4/5 shapes; large tensors (up to 131 072 elements, several layouts): distinct values, no block repeated at n/2, n/4, n/8, n/16 or one row; consecutive Init results of one Full object are independent tensors." +
+			" Round 4: parameter sets with a bound or mean of exactly 0 and values equal to the defaults.",
 		Assumptions: []string{
 			"decides conformance of the observed sample at this power; 'moments converge' as N -> infinity is not decidable by a finite run",
 			"gonum's standard-normal ziggurat has about 32 bits of resolution, so exact repeats between normal draws are legitimate: freshness for normal generators demands < 1% equal positions, for uniform ones none",
@@ -51,7 +52,7 @@ func mustInit[T any](v T, err error) T {
 func c18Specs() []distSpec {
 	var out []distSpec
 	T := rt.Conf(true)
-	for _, p := range [][2]float64{{0, 1}, {-3, -1}, {2, 7}, {-0.5, 10}, {1e-3, 2e-3}} {
+	for _, p := range [][2]float64{{0, 1}, {-3, -1}, {2, 7}, {-0.5, 10}, {1e-3, 2e-3}, {-1, 0}} {
 		p := p
 		out = append(out, distSpec{"RandU", fmt.Sprintf("[%g,%g)", p[0], p[1]), false, p[0], p[1], func(s []int) (tensor.Tensor, error) { return tensor.RandU(s, p[0], p[1], T) }, true})
 	}
@@ -64,7 +65,7 @@ func c18Specs() []distSpec {
 	// an initializer must keep what it was configured with, not a reference to the caller's struct
 	u0 := mustInit(initializers.NewUniform(nil))
 	out = append(out, distSpec{"Uniform", "nil config", false, -0.05, 0.05, u0.Init, true})
-	for _, p := range [][2]float64{{-1, 4}, {0.25, 0.75}, {-7, -6.5}} {
+	for _, p := range [][2]float64{{-1, 4}, {0.25, 0.75}, {-7, -6.5}, {0, 1}, {-2, 0}, {0, 1e-3}, {-0.05, 0.5}} {
 		uc := &initializers.UniformConfig{Lower: p[0], Upper: p[1]}
 		u := mustInit(initializers.NewUniform(uc))
 		uc.Lower, uc.Upper = 100, 200
@@ -72,7 +73,7 @@ func c18Specs() []distSpec {
 	}
 	n0 := mustInit(initializers.NewNormal(nil))
 	out = append(out, distSpec{"Normal", "nil config", true, 0, 0.05, n0.Init, true})
-	for _, p := range [][2]float64{{1, 2}, {-3, 0.5}, {0, 10}} {
+	for _, p := range [][2]float64{{1, 2}, {-3, 0.5}, {0, 10}, {0, 0.05}, {2, 0.05}, {0, 1}} {
 		nc := &initializers.NormalConfig{Mean: p[0], StdDev: p[1]}
 		n := mustInit(initializers.NewNormal(nc))
 		nc.Mean, nc.StdDev = -50, 7
